@@ -42,7 +42,9 @@ def _case(draw, tier):
     sched = draw(progs.schedule(m))
     recv = draw(st.one_of(st.none(), st.lists(st.integers(0, m - 1), min_size=1, max_size=m, unique=True).map(sorted)))
     return dict(m=m, t=t, prss=prss, l=l, seed=draw(st.integers(0, 2**20)), nodes=nodes, sched=sched,
-                receivers=recv, no_barrier=draw(st.sampled_from([False, False, True])))
+                receivers=recv, no_barrier=draw(st.sampled_from([False, False, True])),
+                # outputs started but not awaited before shutdown: their messages must still all be consumed
+                out_mode=draw(st.sampled_from(['end', 'end', 'after_shutdown'])))
 
 
 def strategy(tier):
@@ -93,7 +95,8 @@ def run_case(case):
         holder['obs'] = Observer(sim, deals=False, tasks=False)
 
     try:
-        sim, res, ref = progs.run_int_case(case, receivers=case.get('receivers'), sim_hook=hook)
+        sim, res, ref = progs.run_int_case(case, receivers=case.get('receivers'), sim_hook=hook,
+                                           out_mode=case.get('out_mode', 'end'))
     finally:
         if 'obs' in holder:
             holder['obs'].close()
